@@ -44,6 +44,36 @@ pub struct Tree {
     pub nodes: Vec<PNode>, // index 0 = id 1
 }
 
+fn line_of(lfs: &[usize], off: usize) -> usize {
+    // 1 + number of line feeds before byte `off`
+    1 + lfs.partition_point(|p| *p < off)
+}
+
+/// every numeric attribute "xStart" gets a sibling "lnX" = its line
+fn add_lines(v: &Value, lfs: &[usize]) -> Value {
+    match v {
+        Value::Array(a) => Value::Array(a.iter().map(|x| add_lines(x, lfs)).collect()),
+        Value::Object(m) => {
+            let mut out = Map::new();
+            for (k, x) in m.iter() {
+                out.insert(k.clone(), add_lines(x, lfs));
+                if k.ends_with("Start") {
+                    let base = &k[..k.len() - 5];
+                    let mut key = String::from("ln");
+                    key.extend(base.chars().take(1).flat_map(|c| c.to_uppercase()));
+                    key.push_str(&base[base.chars().next().map(|c| c.len_utf8()).unwrap_or(0)..]);
+                    out.insert(key, match x.as_u64() {
+                        Some(off) => json!(line_of(lfs, off as usize)),
+                        None => json!(0),
+                    });
+                }
+            }
+            Value::Object(out)
+        }
+        x => x.clone(),
+    }
+}
+
 /// TLC's Json module cannot read null: absent names become "", absent counts -1
 pub fn no_nulls(v: &Value) -> Value {
     match v {
@@ -57,6 +87,20 @@ pub fn no_nulls(v: &Value) -> Value {
 impl Tree {
     pub fn children(&self, id: usize) -> Vec<usize> {
         self.nodes[id - 1].slots.iter().flat_map(|s| s.1.iter().cloned()).collect()
+    }
+    /// flat tree with line numbers (`ln` per node, `ln*` per anchor) computed from the source text
+    pub fn to_json_with_lines(&self, src: &str) -> Value {
+        let lfs: Vec<usize> = src.bytes().enumerate().filter(|(_, b)| *b == b'\n').map(|(i, _)| i).collect();
+        let mut v = self.to_json();
+        if let Some(arr) = v.as_array_mut() {
+            for (i, n) in arr.iter_mut().enumerate() {
+                let ln = line_of(&lfs, self.nodes[i].start);
+                let a = no_nulls(&add_lines(&self.nodes[i].attrs, &lfs));
+                n["ln"] = json!(ln);
+                n["a"] = a;
+            }
+        }
+        v
     }
     pub fn to_json(&self) -> Value {
         let v: Vec<Value> = self
@@ -137,7 +181,8 @@ fn params(list: &ParameterList) -> (Vec<Value>, Vec<Any>) {
         match p {
             None => d.push(json!({"present": false})),
             Some(Parameter { loc: _, ty, storage: st, name }) => {
-                d.push(json!({"present": true, "storage": storage(st), "name": name.as_ref().map(ident)}));
+                let st_start = st.as_ref().map(|x| loc_of(&x.loc()).0);
+                d.push(json!({"present": true, "storage": storage(st), "name": name.as_ref().map(ident), "storageStart": st_start}));
                 tys.push(Any::E(ty.clone()));
             }
         }
@@ -196,6 +241,7 @@ fn function_def(f: &FunctionDefinition) -> (Value, Slots, (usize, usize)) {
         "mut": muts.iter().map(|v| v["value"].clone()).collect::<Vec<_>>(),
         "modifiers": mods,
         "nameUnderscore": name.as_ref().map(|n| n.name.starts_with('_')).unwrap_or(false),
+        "nameStart": name.as_ref().map(|n| loc_of(&n.loc).0),
         "onlyModifier": attributes.iter().any(|a| match a {
             FunctionAttribute::BaseOrModifier(_, Base { loc: _, name, args: _ }) => name.identifiers.iter().any(|i| i.name.contains("only")),
             FunctionAttribute::Mutability(_) | FunctionAttribute::Visibility(_) | FunctionAttribute::Virtual(_)
